@@ -825,7 +825,7 @@ func expectWriteTombstone(op Op, p St, res Result, lo, hi uint32, cc string, del
 		if plan.FailErr != nil {
 			return []Alt{fail("xattr-missing", plan.FailErr...)}
 		}
-		return []Alt{{Name: "tombstone-created", BodyNil: true, X: plan.X, ExpLo: lo, ExpHi: hi, Event: true}}
+		return sizeGate(Alt{Name: "tombstone-created", BodyNil: true, X: plan.X, ExpLo: lo, ExpHi: hi, Event: true}, nil, nil, op.X)
 	}
 	if tomb && deleteBody {
 		return []Alt{fail("no-body-to-delete", failCas...)}
